@@ -103,7 +103,8 @@ QuerySet ==
            Q("$", <<Descend(SFilter(ECmp("==", At1(a_), Ctx1(v_))))>>),            FC(ECmp("==", OFn("count", <<OQ(Q("_", <<Child(SName(l_)), Child(SWild)>>))>>), OLit(IntV(2)))),
            FC(ECmp("==", OQ(Q("$", <<Child(SName(k_))>>)), Ctx1(v_))) }
     [] Universe = "member" ->
-         { FC(ECmp("in", At1(a_), OList(<<IntV(1), IntV(3)>>))), FC(ECmp("in", At1(a_), OList(<<S(a_), S(b_)>>))), FC(ECmp("in", At1(a_), OList(<<>>))),
+         { FC(ECmp("in", At1(a_), OList(<<IntV(1), Null>>))), FC(ECmp("contains", OList(<<Null, S(a_)>>), At1(a_))),
+           FC(ECmp("in", At1(a_), OList(<<IntV(1), IntV(3)>>))), FC(ECmp("in", At1(a_), OList(<<S(a_), S(b_)>>))), FC(ECmp("in", At1(a_), OList(<<>>))),
            FC(ECmp("contains", OList(<<IntV(2), IntV(1)>>), At1(a_))), FC(ECmp("in", OLit(IntV(1)), At1(l_))), FC(ECmp("contains", At1(l_), OLit(S(b_)))),
            FC(ECmp("in", OLit(S(a_)), At1(s_))), FC(ECmp("contains", At1(s_), OLit(S(b_)))), FC(ECmp("in", OLit(S(<<98, 97>>)), At1(s_))),
            FC(ECmp("in", OLit(S(a_)), Self)), FC(ECmp("contains", Self, OLit(S(s_)))), FC(ECmp("in", OLit(IntV(2)), Self)), FC(ECmp("contains", Self, OLit(IntV(1)))),
